@@ -34,6 +34,12 @@ PALETTES = [
     dict(C=[[2., -0.5, 1.5], [0.75, 1., -2.5], [-1.25, 3., 0.5]], off=[-2., 0.75, 1.5]),
     dict(C=[[-1.5, 2., 0.75], [0.5, -3., 1.], [2.5, 0.25, -2.]], off=[1.25, 3., -0.5]),
 ]
+# a palette of TINY magnitudes (palette 0 times 2**-33, about 1.2e-10: still exactly representable) - e.g. a
+# wavelength axis in metres; anything that decides "no dependence" with an absolute tolerance breaks here
+TINY = 2.0 ** -33
+PALETTES.append(dict(C=[[c * TINY for c in row] for row in PALETTES[0]['C']],
+                     off=[o * TINY for o in PALETTES[0]['off']], scale=TINY))
+N_SEED_PALETTES = 3
 SHAPES = {1: (3,), 2: (3, 4), 3: (2, 3, 4)}
 SHAPES_T = {1: (4,), 2: (4, 3), 3: (3, 2, 4)}      # second shape set, thorough only
 ATOL_FWD = 1e-9
@@ -68,7 +74,7 @@ def _validate_palettes():
     for ip in range(len(PALETTES)):
         for n in (1, 2, 3):
             for p in patterns(n):
-                m = affine_matrix(p, ip)[:n, :n]
+                m = affine_matrix(p, ip)[:n, :n] / PALETTES[ip].get('scale', 1.0)
                 if abs(np.linalg.det(m)) < 0.05 or np.linalg.cond(m) > 500:
                     raise core.EngineError('C15 palette %d unusable for pattern %r' % (ip, p))
 
@@ -251,7 +257,8 @@ def lattice(shape, pal):
     G = np.meshgrid(*axes, indexing='ij')
     # make them genuinely n-dimensional (no axis constant) so that nothing can be dropped silently
     tot = sum(G)
-    return [np.ascontiguousarray(g + 0.5 * tot) for g in G]
+    scale = PALETTES[pal].get('scale', 1.0) if pal < len(PALETTES) else 1.0      # world values of the palette's magnitude
+    return [np.ascontiguousarray((g + 0.5 * tot) * scale) for g in G]
 
 
 def same(obs, exp, atol):
@@ -285,6 +292,7 @@ def observe(fn, *args):
 
 
 def check_case(res, case, tier, only=None):
+    fscale = PALETTES[case['palette']].get('scale', 1.0) if case.get('kind') == 'affine' else 1.0
     """Evaluate every (clause, axis, view) of one coordinate object.  `only` (a violation's case dict)
     restricts the loops to that axis/view (used by confirm/replay)."""
     d, coords, pattern = build(case)
@@ -387,13 +395,13 @@ def check_case(res, case, tier, only=None):
             if only is not None and only.get('clause') not in ('world-values', 'roundtrip', None):
                 continue
             world_ok[k] = sweep('world-values', k, lambda view, wc=wc: d[wc] if view is None else d[wc, view],
-                                W[k], ATOL_FWD)
+                                W[k], ATOL_FWD * fscale)
 
     for k in axes:
         want = None if only is None else only.get('clause')
         if want in (None, 'p2w-link'):
             L = p2w[k]
-            sweep('p2w-link', k, lambda view, L=L: L.compute(d, view), W[k], ATOL_FWD, link=True)
+            sweep('p2w-link', k, lambda view, L=L: L.compute(d, view), W[k], ATOL_FWD * fscale, link=True)
         L = w2p[k]
         grid_ok = {}
         if want in (None, 'w2p-link', 'roundtrip'):
@@ -412,7 +420,7 @@ def check_case(res, case, tier, only=None):
 
 # --------------------------------------------------------------------------- driver
 def all_cases(tier):
-    pals = [core.seed() % len(PALETTES)] if tier == 'quick' else list(range(len(PALETTES)))
+    pals = [core.seed() % N_SEED_PALETTES] if tier == 'quick' else list(range(N_SEED_PALETTES))
     shape_sets = [SHAPES] if tier == 'quick' else [SHAPES, SHAPES_T]
     cases = []
     for ss in shape_sets:
@@ -423,6 +431,13 @@ def all_cases(tier):
                     continue
                 for p in patterns(n):
                     cases.append(dict(kind='affine', pattern=p, palette=ip, shape=list(ss[n])))
+        # the tiny-magnitude palette: every 1-d and 2-d pattern, and for 3-d the permutation patterns (quick) or
+        # every pattern (thorough)
+        if ss is SHAPES:
+            for n in (3, 2, 1):
+                for p in patterns(n):
+                    if n < 3 or tier == 'thorough' or sum(map(sum, p)) == 3:
+                        cases.append(dict(kind='affine', pattern=p, palette=len(PALETTES) - 1, shape=list(ss[n])))
     return cases
 
 
